@@ -70,11 +70,12 @@ type shape struct {
 	phys   []int  // physical cells per row
 	plain  []bool // the row has exactly G cells, all of span 1
 	rect   bool   // every row plain
+	nospan bool   // every cell has span 1: physical index = grid column in every row (rows may still be ragged)
 	merged bool   // some cell has span > 1 or a vertical-merge role
 }
 
 func describe(t *document.Table) shape {
-	s := shape{R: len(t.Rows), rect: true}
+	s := shape{R: len(t.Rows), rect: true, nospan: true}
 	if t.Grid != nil {
 		s.G = len(t.Grid.Cols)
 	}
@@ -86,6 +87,7 @@ func describe(t *document.Table) shape {
 			if span(&cells[j]) != 1 {
 				pl = false
 				s.merged = true
+				s.nospan = false
 			}
 			if vm(&cells[j]) != "" {
 				s.merged = true
